@@ -107,7 +107,8 @@ def build_repo(kind="std"):
             if rc != 0:
                 shutil.rmtree(bdir, ignore_errors=True)
                 raise RuntimeError("cmake configure failed:\n" + out[-2000:] + err[-2000:])
-        rc, out, err = sh(["cmake", "--build", str(bdir), "-j", str(NCPU)])
+        # (the build may run the freshly built interrogate on the project's own headers: leaks at exit are not build failures)
+        rc, out, err = sh(["cmake", "--build", str(bdir), "-j", str(NCPU)], env={"ASAN_OPTIONS": "detect_leaks=0"} if kind == "asan" else None)
         if rc != 0:
             raise RuntimeError("build of /repo working tree failed:\n" + out[-4000:] + err[-2000:])
         log("[build %s] up to date in %.1fs" % (kind, time.time() - t0))
